@@ -123,7 +123,19 @@ _ENV: dict = {}
 
 
 def install_monitors(ctx):
+    import resource
+
     from spsdk.sbfile.sb2 import sly_bd_lexer, sly_bd_parser
+
+    # An implementation that mis-evaluates an operand can arrive at '1 << 3000000000': with a cap on the address space
+    # that is a MemoryError (= refused) instead of a visit of the kernel's OOM killer to the whole shard.
+    try:
+        soft, hard = resource.getrlimit(resource.RLIMIT_AS)
+        cap = 3 << 30
+        if hard == resource.RLIM_INFINITY or hard > cap:
+            resource.setrlimit(resource.RLIMIT_AS, (cap, hard))
+    except (ValueError, OSError):
+        pass
 
     mon = sys.monitoring
     labels = {}
@@ -422,6 +434,16 @@ class ExprGen:
             left = self.tree(depth - 1)
             if op in ("<<", ">>") and rng.random() < 0.85:
                 right = self.lit(rng.randrange(0, 32) if rng.random() < 0.8 else rng.randrange(0, 8))
+            elif op in ("<<", ">>"):
+                # a computed shift count is masked in the text itself: an implementation that mis-evaluates the
+                # operand must not be driven into '1 << 3000000000' (gigabytes of integer, OOM killer)
+                inner = self.tree(depth - 1)
+                if inner.kind not in ("lit", "ref", "par"):
+                    par = Node("par", kids=(inner,))
+                    par.val = inner.val
+                    inner = par
+                right = Node("bin", "&", (inner, self.lit(core.pick(rng, [31, 15, 7]))))
+                right.val = self.calc(right)
             else:
                 right = self.tree(depth - 1)
             n = Node("bin", op, (left, right))
@@ -1128,7 +1150,7 @@ def classify_config(text, extern, got, prog):
     for qs in subsets(applicable_parse_quirks(text, prog)):
         try:
             alt = norm_ref(bd_ref.parse(text, extern, quirks=qs))
-        except bd_ref.BDError:
+        except (bd_ref.BDError, MemoryError, OverflowError):
             continue
         if len(alt["sections"]) == len(got["sections"]):
             reconcile_blobs(alt, got)
@@ -1141,7 +1163,7 @@ def classify_commands(prog, read_file, got, applicable):
     for qs in subsets(applicable):
         try:
             alt = bd_ref.commands(prog, read_file, quirks=qs)
-        except bd_ref.BDError:
+        except (bd_ref.BDError, MemoryError, OverflowError):
             continue
         if not diff_commands(alt, got):
             return qs
@@ -1300,6 +1322,7 @@ def unsupported_programs(rng, wd, stats):
         ("section-list", f"section (0) {{ load $.text > {e.u32(1)[0]}; {body()} }}"),
         ("section-list-multi", f"section (0) {{ {body()} load $.data, ~$.bss > 0x2000; }}"),
         ("section-list-from", f"section (0) {{ load $.text from src1 > 0x100; }}"),
+        ("section-list-complement", "section (0) { load ~$.bss > 0x100; }"),
         ("sizeof", f"section (0) {{ {body()} load sizeof(k1) > 0x100; }}"),
         ("sizeof-symbol", f"section (0) {{ erase 0x100..0x100 + sizeof(src1?:main); }}"),
         ("symbol-ref-expr", f"section (0) {{ {body()} load 5 > src1?:main; }}"),
@@ -1450,7 +1473,7 @@ def judge_cli(ctx, text, extern, label, meta):
                 pq = [q for q in cand if q in PARSE_QUIRKS]
                 alt_prog = bd_ref.parse(text, extern, quirks=pq) if pq else prog
                 alt = bd_ref.commands(alt_prog, read_file, quirks=[q for q in cand if q in CMD_QUIRKS])
-            except bd_ref.BDError:
+            except (bd_ref.BDError, MemoryError, OverflowError):
                 continue
             if not diff_commands(alt, sections, exact_load_length=False):
                 qs = cand
